@@ -29,7 +29,7 @@ func init() {
 // Scenario mirrors the `fault` record of Containment.tla.
 type Scenario struct {
 	Node int    `json:"node"` // 1 = from, 2 = eval/alert, 3 = log (sink)
-	Kind string `json:"kind"` // pointErr | nodeErr | panic
+	Kind string `json:"kind"` // pointErr | nodeErr | panic | stoprace (victim stopped while a writer is blocked on its full edge) | share (victim rewrites a tag of points it shares with the bystander)
 	At   int    `json:"at"`   // point number (0 = when the node goroutine starts)
 	N    int    `json:"n"`    // points written
 	Trig  string `json:"trig"`  // pointErr trigger: div0 | substr (built-in that panics) | missing (field absent, referenced twice in one call)
@@ -45,6 +45,7 @@ type Outcome struct {
 	BNodeFailed  bool   `json:"bNodeFailed"`
 	StopReturned bool   `json:"stopReturned"`
 	WriteBlocked bool   `json:"writeBlocked"`
+	BTagsOK      bool   `json:"bTagsOK"`
 	BFlood       int    `json:"bFlood"`
 	Leaked       int    `json:"leaked"`
 	Note         string `json:"note,omitempty"`
@@ -99,7 +100,12 @@ func RunChild(r *rt.Run) (err error) {
 	}
 	target := nodeName(sc)
 	var seen atomic.Int64
+	parkGate := make(chan struct{})
 	kapacitor.VerifHook = func(point string, args ...string) {
+		if sc.Kind == "stoprace" && point == "node.run" && args[0] == "v" && args[1] == "stream0" {
+			<-parkGate // the victim's first node does not start: its fork edge fills up
+			return
+		}
 		if sc.Kind != "panic" || args[0] != "v" {
 			return
 		}
@@ -146,6 +152,10 @@ func RunChild(r *rt.Run) (err error) {
 		}
 		mid = `|eval(lambda: "k" + 1).as('q').keep('d', 'q', 'k')`
 	}
+	if sc.Kind == "share" {
+		// rewrites tag g of every point; the bystander receives the same point objects
+		mid = `|eval(lambda: strToUpper("g")).as('g').tags('g').keep('d', 'k')`
+	}
 	vScript := "stream\n|" + from + "\n" + mid + "\n|log().prefix('v')\n"
 	bScript := "stream\n|from().measurement('m')\n|eval(lambda: \"k\" + 1).as('q').keep('k', 'q')\n|log().prefix('b')\n"
 	if _, err := env.StartTask("v", vScript, kapacitor.StreamTask, rt.DefaultDBRP); err != nil {
@@ -153,6 +163,9 @@ func RunChild(r *rt.Run) (err error) {
 	}
 	if _, err := env.StartTask("b", bScript, kapacitor.StreamTask, rt.DefaultDBRP); err != nil {
 		return fmt.Errorf("start b: %w", err)
+	}
+	if sc.Kind == "stoprace" {
+		return stopRace(r, env, sc, parkGate, base)
 	}
 	for k := 1; k <= sc.N; k++ {
 		d, g := int64(1), "gg"
@@ -226,7 +239,13 @@ func RunChild(r *rt.Run) (err error) {
 		}
 		time.Sleep(5 * time.Millisecond)
 	}
+	out.BTagsOK = true
 	for _, it := range env.Diag.Items() {
+		if it.Sink == "b" {
+			if g := it.Point.Tags()["g"]; g != "gg" && g != "x" {
+				out.BTagsOK = false // the bystander saw a tag value that was never written
+			}
+		}
 		kv, ok := it.Point.Fields()["k"].(int64)
 		if !ok {
 			rt.Fatalf("c05child: sink %s saw a point without field k: %v", it.Sink, it.Point.Fields())
@@ -269,4 +288,97 @@ func firstLines(s string, n int) string {
 		l = l[:n]
 	}
 	return strings.Join(l, " | ")
+}
+
+
+// stopRace: the victim's first node is parked, so its 1000-slot fork edge fills and the forking
+// goroutine blocks inside Collect; the victim is then stopped and the node released.  Whatever the
+// order, the process must survive, the stop must return and the bystander must get every point.
+func stopRace(r *rt.Run, env *rt.Env, sc Scenario, parkGate chan struct{}, base map[string]string) error {
+	total := sc.N + sc.Flood
+	wdone := make(chan struct{})
+	go func() {
+		for k := 1; k <= total; k++ {
+			p := rt.MustPoint("m", map[string]string{"g": "gg"}, map[string]any{"d": int64(1), "k": int64(k), "a": 1.5}, rt.DefaultTime.T(k))
+			env.Write("db", "rp", p)
+		}
+		close(wdone)
+	}()
+	// wait until the bystander stops making progress (the forking goroutine is blocked on the victim's full edge)
+	last, stable := -1, 0
+	for i := 0; i < 4000 && stable < 40; i++ {
+		c := env.Diag.Count("b")
+		if c == last {
+			stable++
+		} else {
+			stable, last = 0, c
+		}
+		if c >= total {
+			break
+		}
+		time.Sleep(time.Millisecond)
+	}
+	out := Outcome{Alive: true, BTagsOK: true}
+	sdone := make(chan struct{})
+	go func() {
+		env.TM.StopTask("v")
+		close(sdone)
+	}()
+	time.Sleep(20 * time.Millisecond)
+	close(parkGate) // the parked node may now run (and drain) - with the stop already requested
+	select {
+	case <-wdone:
+	case <-time.After(45 * time.Second):
+		out.WriteBlocked = true
+		out.Note = "WritePoints still blocked 45s after the victim was stopped and released"
+	}
+	select {
+	case <-sdone:
+		out.StopReturned = true
+	case <-time.After(45 * time.Second):
+		out.Note += " StopTask(v) did not return within 45s"
+	}
+	if !out.WriteBlocked {
+		env.Diag.WaitCount("b", total, 45*time.Second)
+	}
+	bdone := make(chan struct{})
+	go func() { env.TM.StopTask("b"); close(bdone) }()
+	select {
+	case <-bdone:
+	case <-time.After(45 * time.Second):
+		out.StopReturned = false
+		out.Note += " StopTask(b) did not return within 45s"
+	}
+	deadline := time.Now().Add(10 * time.Second)
+	for {
+		cur := kapGoroutines()
+		leaked := 0
+		for id := range cur {
+			if _, ok := base[id]; !ok {
+				leaked++
+			}
+		}
+		out.Leaked = leaked
+		if leaked == 0 || time.Now().After(deadline) {
+			break
+		}
+		time.Sleep(5 * time.Millisecond)
+	}
+	for _, it := range env.Diag.Items() {
+		kv, _ := it.Point.Fields()["k"].(int64)
+		k := int(kv)
+		if it.Sink == "v" && k <= sc.N {
+			out.VDelivered = append(out.VDelivered, k)
+		}
+		if it.Sink != "b" {
+			continue
+		}
+		if k > sc.N {
+			out.BFlood++
+		} else {
+			out.BDelivered = append(out.BDelivered, k)
+		}
+	}
+	b, _ := json.Marshal(out)
+	return os.WriteFile(filepath.Join(r.OutDir, "outcome.json"), b, 0o644)
 }
